@@ -25,7 +25,25 @@ pub struct Case {
 pub fn gen_case(t: &mut Tape, tier: Tier) -> Option<Case> {
     let tol = if t.chance(0.25) { None } else { Some(10f64.powf(t.uniform(-12.0, 2.0))) };
     let mut require = false;
-    let (a, class): (Mat, &'static str) = match t.below(7) {
+    let (a, class): (Mat, &'static str) = match t.below(8) {
+        7 => {
+            // SPD matrix at an extreme overall scale (power of two, exact): pivots and their product may under/overflow
+            let (mut a, _) = c15::gen_spd(t, tier);
+            let k = t.range(0, 2000) as i32 - 1000;
+            let (h1, h2) = (k / 2, k - k / 2);
+            let mut ok = true;
+            for row in a.iter_mut() {
+                for v in row.iter_mut() {
+                    *v = *v * 2f64.powi(h1) * 2f64.powi(h2);
+                    ok &= v.is_finite();
+                }
+            }
+            if !ok {
+                let (b, _) = c15::gen_spd(t, tier);
+                a = b;
+            }
+            (a, "spd:extreme-scale")
+        }
         0 => {
             let (a, _) = c15::gen_spd(t, tier);
             (a, "spd")
